@@ -67,8 +67,53 @@ def rule_refill(chk, prog):
                         "that fills the buffer to its fixed size is dropped and the UDP association ends" % ("a sub-slice of the buffer" if sliced else "no positive constant length"))
 
 
+def rule_frag_id(chk, prog):
+    """Fragments of all sessions that share a QUIC connection are reassembled by ONE queue per connection, keyed by the fragment id
+    alone (quic_frames_thread owns one Fragments value).  The ids therefore have to be unique across the sessions of a connection.
+    A counter that lives in the per-session writer starts at the same value in every session: two sessions that send a fragmented
+    datagram with the same id at the same time get their fragments mixed or one of the datagrams is never completed."""
+    if "quic" not in prog.features:
+        return
+    sites = []
+    for f in prog.fns.values():
+        if f.crate != "redproxy_rs" or f.file.endswith("fragment.rs"):
+            continue
+        for c in f.calls:
+            if re.search(r"fragment::Fragments::<T>::make_fragments$", c.name or c.path or ""):
+                sites.append((f, c))
+    reasm = [f for f in prog.fns.values() if f.crate == "redproxy_rs" and not f.file.endswith("fragment.rs") and
+             any(re.search(r"fragment::Fragments::<T>::reassemble$", c.name or c.path or "") for c in f.calls)]
+    chk.floor("FRAG-ID", len(sites), 1, "make_fragments call sites")
+    chk.floor("FRAG-ID", len(reasm), 1, "reassembly sites (one queue per connection)")
+    for f, c in sites:
+        l = op_base(c.args[1]) if len(c.args) > 1 else None
+        kind, detail = "unknown", ""
+        for k, info in (f.trace(l) if l is not None else []):
+            if k in ("ref", "place") and len(info) > 1 and any(str(x).startswith("f:") for x in info[1:]):
+                kind, detail = "field", "a field of the writer (%s)" % ".".join(str(x) for x in info[1:])
+                break
+            if k in ("ref", "place") and len(info) == 1:
+                d = f.single_def(info[0])
+                dc = f.call_at(d[0]) if d and d[1] == "term" else None
+                if dc is not None and re.search(r"sync::atomic::Atomic[^:]*(::<[^>]*>)?::fetch_add$", dc.path or ""):
+                    recv = f.trace(op_base(dc.args[0])) if dc.args and op_base(dc.args[0]) is not None else []
+                    shared = any(kk == "const" for kk, ii in recv) or "Arc<" in (f.local_ty_s(op_base(dc.args[0])) if op_base(dc.args[0]) is not None else "")
+                    if not shared:
+                        shared = any(op_const(a) for a in dc.args[:1])
+                    kind, detail = ("shared", "fetch_add on a shared atomic") if shared else ("field", "fetch_add on a per-writer atomic")
+                    break
+        ok = kind == "shared"
+        chk.instance("FRAG-ID", c.where(), "%s draws fragment ids from a counter shared by all sessions of the connection" % f.path, ok, detail)
+        if not ok:
+            chk.finding("FRAG-ID", f.key, "per-session-counter", "", c.where(),
+                        "%s numbers its fragmented frames from %s while the receiver reassembles all sessions of the connection in one queue keyed by "
+                        "the id alone: concurrent sessions reuse each other's ids, fragments of different datagrams are combined or a datagram is never "
+                        "completed although nothing was lost" % (f.path, detail or "a source that is not provably shared"))
+
+
 def run(chk, prog):
     rule_refill(chk, prog)
+    rule_frag_id(chk, prog)
     # ---------------------------------------------------------------- LIN
     accept_fns = []
     for pat in (r"^listeners::reverse::ReverseProxyListener::udp_accept$", r"^listeners::tproxy::TProxyListener::udp_accept$"):
